@@ -1,5 +1,5 @@
 (* C07 - subscribers are called exactly once per matching event with the right arguments.  Statements only. *)
-From RU Require Import Base Types Defs BitReader World Run WireSpec LwwProofs DispatchProofs.
+From RU Require Import Base Types Defs BitReader World Run WireSpec LwwProofs DispatchProofs NestedNotify.
 Open Scope N_scope.
 
 (* a method call nobody subscribed to has no effect and is NOT decoded: any payload bytes, decodable or not *)
@@ -67,3 +67,16 @@ Theorem C07_distinct_keys_all_kept : forall ent name tbl,
   exists tbl', subscribe tbl ent name = Ok tbl' /\ assoc_get (ent ++ "_" ++ name)%string tbl' = Some 1%nat /\
                forall k, k <> (ent ++ "_" ++ name)%string -> assoc_get k tbl' = assoc_get k tbl.
 Proof. exact distinct_keys_all_kept. Qed.
+
+(* nested-change subscribers (after the repairs recorded as fixed: C07-c, C07-d): every nested packet that is applied - set, set-to-None, slice
+   replace / insert / DELETE - produces exactly the notifications of the changed path; a subscription is notified exactly when its key is
+   the hash of that path or a dotted prefix of it (not when it merely occurs inside it) *)
+Theorem C07_nested_apply_announces : forall St e m sl payload e' cs,
+  nested_apply St e m sl payload = Ok (e', cs) -> exists path obj, cs = nested_calls St e path obj.
+Proof. exact nested_apply_announces. Qed.
+Theorem C07_leaf_op_always_notifies : forall is_slice leaf r v last b, leaf_op is_slice leaf r = Ok (v, last, b) -> b = true.
+Proof. exact leaf_op_always_notifies. Qed.
+Theorem C07_path_covers_spec : forall k h, path_covers k h = true <-> h = k \/ exists rest, h = (k ++ "." ++ rest)%string.
+Proof. exact path_covers_spec. Qed.
+Print Assumptions C07_nested_apply_announces.
+Print Assumptions C07_path_covers_spec.
